@@ -185,6 +185,12 @@ fn main() {
             }
             overflow::run(&args[1], &args[2]);
         }
+        "inject" => {
+            if args.len() < 2 {
+                usage();
+            }
+            threads::run_injections(&args[1]);
+        }
         "ctor" => {
             if args.len() < 3 {
                 usage();
